@@ -108,8 +108,15 @@ func (g *Gen) call(b *ssa.BasicBlock, ins ssa.Instruction, c *ssa.CallCommon, h 
 	if inRepo {
 		fc := g.P.contractFor(fn)
 		if fc != nil {
-			if fn.Signature.Recv() != nil && len(names) > 0 {
-				// also bind recv/this
+			// a closure created here: its free variables are visible to its contract under their source names
+			if mc, ok := c.Value.(*ssa.MakeClosure); ok {
+				for i, fv := range fn.FreeVars {
+					if i < len(mc.Bindings) {
+						cell := g.val(mc.Bindings[i])
+						names = append(names, fv.Name())
+						args = append(args, g.loadAt(h, cell, derefType(fv.Type())))
+					}
+				}
 			}
 			return g.applyContract(b, fc, names, args, res, fn, h, guard, pos, FuncKey(fn), fn)
 		}
@@ -202,6 +209,7 @@ func (g *Gen) havocComps(h Heap, comps []string, hint string) Heap {
 		if c == "ALLOC" {
 			old := g.hget(h, c)
 			g.S.assert(fmt.Sprintf("(forall ((r Ref)) (! (=> (select %s r) (select %s r)) :pattern ((select %s r))))", old, n, n))
+			g.S.assert(not(sel(n, "null")))
 		}
 		h[c] = n
 	}
@@ -312,6 +320,21 @@ func (g *Gen) applyContract(b *ssa.BasicBlock, fc *FuncContract, names []string,
 	for _, c := range fc.Ensures {
 		g.assumeClause(env2, c, guard)
 	}
+	// ghost bookkeeping defined by the callee's result
+	for _, d := range fc.Defines {
+		v, err := env2.eval(d.Expr)
+		if err != nil {
+			g.unsupported("%s: defines %q: %v", fc.Key, d.Text, err)
+			continue
+		}
+		h3, err := g.setDesignator(env2, d.Target, v, h2)
+		if err != nil {
+			g.unsupported("%s: defines %q: %v", fc.Key, d.Text, err)
+			continue
+		}
+		h2 = h3
+		env2.heap = h2
+	}
 	if callee != nil || fc.Kind == "functype" {
 		g.assumeStructInvs(h2, guard)
 	}
@@ -337,7 +360,7 @@ func (g *Gen) bindResults(env *Env, r Val, res *types.Tuple) {
 	env.vars["result"] = rs[0]
 	last := res.At(res.Len() - 1)
 	if types.Identical(last.Type(), types.Universe.Lookup("error").Type()) {
-		if _, taken := env.vars["err"]; !taken || last.Name() == "" {
+		if _, taken := env.vars["err"]; !taken || last.Name() == "err" {
 			env.vars["err"] = rs[len(rs)-1]
 		}
 	}
@@ -377,9 +400,101 @@ func (g *Gen) frameHavoc(before, after Heap, ws []string) Heap {
 	return out
 }
 
+// setDesignator assigns v to a ghost variable or ghost map entry.
+func (g *Gen) setDesignator(env *Env, target string, v Val, h Heap) (Heap, error) {
+	target = strings.TrimSpace(target)
+	if gv, ok := g.P.Contract.Ghosts[target]; ok {
+		comp, _, _ := g.ghostComp(gv)
+		h = h.clone()
+		h[comp] = v.T
+		return h, nil
+	}
+	e, err := ParseExpr(target)
+	if err != nil {
+		return h, err
+	}
+	if x, ok := e.(*EIndex); ok {
+		if id, ok := x.X.(*EIdent); ok {
+			if gv, ok := g.P.Contract.Ghosts[id.Name]; ok {
+				comp, _, _ := g.ghostComp(gv)
+				k, err := env.eval(x.I)
+				if err != nil {
+					return h, err
+				}
+				h = h.clone()
+				h[comp] = store(g.hget(h, comp), k.T, v.T)
+				return h, nil
+			}
+		}
+	}
+	return h, fmt.Errorf("defines target must be a ghost variable or ghost map entry")
+}
+
+// ghostsWithPrefix expands "H_*" to the ghost variables with that prefix.
+func (g *Gen) ghostsWithPrefix(item string) []string {
+	if !strings.HasSuffix(item, "*") || item == "*" {
+		return nil
+	}
+	pre := strings.TrimSuffix(item, "*")
+	var out []string
+	for _, gv := range g.sortedGhosts() {
+		if strings.HasPrefix(gv.Name, pre) {
+			out = append(out, gv.Name)
+		}
+	}
+	return out
+}
+
+
+// typeFieldComp resolves "Type.field" / "pkg.Type.field" to the field component (every object of that type).
+func (g *Gen) typeFieldComp(env *Env, x *ESel) (string, bool) {
+	var tn *types.TypeName
+	switch t := x.X.(type) {
+	case *EIdent:
+		if _, isVar := env.vars[t.Name]; isVar {
+			return "", false
+		}
+		if !env.noLocals {
+			if _, isLocal := g.lookupLocal(t.Name, env.block, env.atEnd); isLocal {
+				return "", false
+			}
+		}
+		if env.pkg != nil {
+			tn, _ = env.pkg.Scope().Lookup(t.Name).(*types.TypeName)
+		}
+	case *ESel:
+		if id, ok := t.X.(*EIdent); ok {
+			if _, isVar := env.vars[id.Name]; !isVar {
+				if p := g.pkgByName(id.Name); p != nil {
+					tn, _ = p.Scope().Lookup(t.Name).(*types.TypeName)
+				}
+			}
+		}
+	}
+	if tn == nil {
+		return "", false
+	}
+	st := structOf(tn.Type())
+	for i := 0; st != nil && i < st.NumFields(); i++ {
+		if st.Field(i).Name() == x.Name {
+			comp, _ := g.fieldComp(tn.Type(), st.Field(i))
+			return comp, true
+		}
+	}
+	return "", false
+}
+
 // havocDesignator havocs one item of an assigns clause.
 func (g *Gen) havocDesignator(env *Env, item string, h Heap) (Heap, error) {
 	item = strings.TrimSpace(item)
+	if gs := g.ghostsWithPrefix(item); len(gs) > 0 {
+		var comps []string
+		for _, n := range gs {
+			c, _, _ := g.ghostComp(g.P.Contract.Ghosts[n])
+			comps = append(comps, c)
+		}
+		return g.havocComps(h, comps, "assigns"), nil
+	}
 	switch item {
 	case "*":
 		return g.havocAll(h), nil
@@ -398,6 +513,9 @@ func (g *Gen) havocDesignator(env *Env, item string, h Heap) (Heap, error) {
 	switch x := e.(type) {
 	case *ESel:
 		// Type.field : every object ; expr.field : one object
+		if comp, ok := g.typeFieldComp(cur, x); ok {
+			return g.havocComps(h, []string{comp}, "assigns"), nil
+		}
 		if id, ok := x.X.(*EIdent); ok {
 			if _, isVar := env.vars[id.Name]; !isVar && env.pkg != nil {
 				if tn, ok := env.pkg.Scope().Lookup(id.Name).(*types.TypeName); ok {
@@ -759,36 +877,65 @@ func (g *Gen) bindFunctypeParams(env *Env) {
 
 // frameCheck: at a return, every component not covered by the assigns clause is unchanged on objects
 // that were allocated on entry.
-func (g *Gen) frameCheck(env *Env, h Heap, guard string, pos token.Pos) {
-	// compute the heap that results from havocking exactly the assigned designators on the entry heap;
-	// then every other difference must be confined to fresh objects.
-	allowed := map[string][]string{} // comp -> list of refs (terms) that may change ; nil list with key present = whole comp
-	whole := map[string]bool{}
-	var assigns []string
+// frameSpec resolves the assigns clauses of the unit: whole components, and per component the refs that may change.
+func (g *Gen) frameSpec() (whole map[string]bool, allowed map[string][]string, assigns []string, ok bool) {
+	if g.frameDone {
+		return g.frameWhole, g.frameAllowed, g.frameAssigns, g.frameOK
+	}
+	g.frameDone = true
+	allowed = map[string][]string{}
+	whole = map[string]bool{}
 	if g.FC != nil && g.FC.HasAssign {
 		assigns = append(assigns, g.FC.Assigns...)
 	}
 	if g.FT != nil && g.FT.HasAssign {
 		assigns = append(assigns, g.FT.Assigns...)
 	}
+	ok = true
 	for _, a := range assigns {
 		e0 := g.newEnv(g.entryHeap, g.entryHeap, g.Fn.Blocks[0])
-		for k, v := range env.vars {
-			e0.vars[k] = v
+		if g.FT != nil {
+			g.bindFunctypeParams(e0)
 		}
 		comps, ref, err := g.designatorTargets(e0, a)
 		if err != nil {
+			if g.FT != nil && strings.Contains(err.Error(), "server") {
+				continue // the closure does not capture the server: it cannot write through it
+			}
 			g.unsupported("%s: assigns %q: %v", g.FnName(), a, err)
-			return
+			ok = false
+			break
 		}
 		for _, comp := range comps {
 			if comp == "*" {
-				return
+				ok = false
 			}
 			if ref == "" {
 				whole[comp] = true
 			} else {
 				allowed[comp] = append(allowed[comp], ref)
+			}
+		}
+	}
+	g.frameWhole, g.frameAllowed, g.frameAssigns, g.frameOK = whole, allowed, assigns, ok
+	return
+}
+
+func (g *Gen) frameCheck(env *Env, h Heap, guard string, pos token.Pos) {
+	whole, allowed, assigns, ok := g.frameSpec()
+	if !ok {
+		return
+	}
+	whole = copyBoolMap(whole)
+	if g.FC != nil {
+		for _, d := range g.FC.Defines {
+			name := d.Target
+			if i := strings.Index(name, "["); i >= 0 {
+				name = name[:i]
+			}
+			if gv, ok := g.P.Contract.Ghosts[strings.TrimSpace(name)]; ok {
+				c, _, _ := g.ghostComp(gv)
+				whole[c] = true
 			}
 		}
 	}
@@ -824,6 +971,14 @@ func (g *Gen) frameCheck(env *Env, h Heap, guard string, pos token.Pos) {
 // designatorTarget resolves an assigns item to (component, ref-term or "" for the whole component).
 func (g *Gen) designatorTargets(env *Env, item string) ([]string, string, error) {
 	item = strings.TrimSpace(item)
+	if gs := g.ghostsWithPrefix(item); len(gs) > 0 {
+		var comps []string
+		for _, n := range gs {
+			c, _, _ := g.ghostComp(g.P.Contract.Ghosts[n])
+			comps = append(comps, c)
+		}
+		return comps, "", nil
+	}
 	if e, err := ParseExpr(item); err == nil {
 		if c, ok := e.(*ECall); ok && c.Fun == "map" && len(c.Args) == 1 {
 			v, err := env.eval(c.Args[0])
@@ -860,6 +1015,9 @@ func (g *Gen) designatorTarget(env *Env, item string) (string, string, error) {
 	}
 	switch x := e.(type) {
 	case *ESel:
+		if comp, ok := g.typeFieldComp(env, x); ok {
+			return comp, "", nil
+		}
 		if id, ok := x.X.(*EIdent); ok {
 			if _, isVar := env.vars[id.Name]; !isVar && env.pkg != nil {
 				if tn, ok := env.pkg.Scope().Lookup(id.Name).(*types.TypeName); ok {
@@ -971,4 +1129,12 @@ func (g *Gen) wrappedOperand(c *ssa.CallCommon, args []Val, h Heap) string {
 	}
 	comp := g.elemComp(SIface)
 	return sel(sel(g.hget(h, comp), sx("s-arr", va.T)), sx("+", sx("s-off", va.T), num(int64(idx))))
+}
+
+func copyBoolMap(m map[string]bool) map[string]bool {
+	n := map[string]bool{}
+	for k, v := range m {
+		n[k] = v
+	}
+	return n
 }
